@@ -651,4 +651,35 @@ theorem run_sound (ops : List Op) : ∀ (s : XSt) (m : MSt), Sound s m →
     simp only [runOps, List.map_cons, List.zip_cons_cons, acceptsRun, e]
     exact i1
 
+/-- a line `failed …` is printed only together with setting the failure latch -/
+def FailLatched (p : XSt × Out) : Prop := ∀ f, p.2 = .failed f → p.1.bad = some f
+
+theorem rOp_fl (s : XSt) (res : Res NetbufRead.R) : FailLatched (rOp s res) := by
+  unfold rOp; split <;> intro f h <;> simp_all
+
+theorem wOp_fl (s : XSt) (res : Res NetbufWrite.W) : FailLatched (wOp s res) := by
+  unfold wOp; split <;> intro f h <;> simp_all
+
+theorem stepOp_fl (s : XSt) (op : Op) : FailLatched (stepOp s op) := by
+  unfold stepOp
+  split
+  · intro f h; simp_all
+  · cases op <;> simp only [] <;> (repeat' split) <;>
+      (first | exact rOp_fl _ _ | exact wOp_fl _ _ | (intro f h; simp_all))
+
+theorem run_no_failed (ops : List Op) : ∀ (s : XSt) (m : MSt), Sound s m →
+    ∀ o ∈ (runOps s ops).2, ∀ f, o ≠ .failed f := by
+  induction ops with
+  | nil => intro s m _ o ho; simp [runOps] at ho
+  | cons op ops ih =>
+    intro s m h o ho f
+    obtain ⟨m', _, h'⟩ := step_sound s m h op
+    simp only [runOps, List.mem_cons] at ho
+    rcases ho with rfl | ho
+    · intro hf
+      have := stepOp_fl s op f hf
+      rw [h'.bad] at this
+      cases this
+    · exact ih _ m' h' o ho f
+
 end Percival.Proofs.NetbufMonSound
